@@ -28,5 +28,9 @@ let () = run_protocol [
   "loglikelihood", (function [k; l; s; v] -> VF (loglikelihood o (kind_of k) (par l s) (gv v)) | _ -> failwith "arity");
   "apply_field", (function [k; l; s; m; t; r] -> VV (List.map optf (apply_field o (kind_of k) (par l s) (gv m) (gv t) (gv r))) | _ -> failwith "arity");
   "remove_field", (function [k; l; s; m; t; f] -> VV (List.map optf (remove_field o (kind_of k) (par l s) (gv m) (gv t) (gv f))) | _ -> failwith "arity");
+  "fit_book", (function [sk; tr; xf; st] ->
+      let skipm = List.map (fun z -> int_of_z z <> 0) (gzv sk) in
+      let (st2, dict) = fit_book skipm (gm tr) (gv xf) (gv st) in
+      VT [VV st2; VB (match dict with None -> false | Some _ -> true); VV (match dict with None -> [] | Some d -> d)] | _ -> failwith "arity");
   "single_val_vec", (function [v; d] -> VV (single_val_vec o (gv v) (gn d)) | _ -> failwith "arity");
 ]
